@@ -422,6 +422,61 @@ fn facts(board: &mut Board) -> String {
     format!("[{}]", out.join(","))
 }
 
+/// Exhaustive AND/OR analysis: the side to move can force mate within `moves` of its own moves.
+fn forces_mate(board: &mut Board, moves: u32) -> bool {
+    for m in board.get_legal_moves() {
+        board.make_move(m);
+        let replies = board.get_legal_moves();
+        let ok = if replies.is_empty() {
+            board.is_in_check(board.current_turn)
+        } else if moves <= 1 {
+            false
+        } else {
+            let mut all = true;
+            for r in replies {
+                board.make_move(r);
+                let f = forces_mate(board, moves - 1);
+                board.unmake_move();
+                if !f {
+                    all = false;
+                    break;
+                }
+            }
+            all
+        };
+        board.unmake_move();
+        if ok {
+            return true;
+        }
+    }
+    false
+}
+
+/// After `mv` (by the side to move) the opponent is mated, or every reply still allows a forced mate within
+/// `moves` further moves: the move keeps a forced mate of at most `moves + 1` moves.
+fn keeps_forced_mate(board: &mut Board, mv: &str, moves: u32) -> bool {
+    let Ok(p) = board.find_move(mv) else { return false };
+    board.make_move(p);
+    let replies = board.get_legal_moves();
+    let res = if replies.is_empty() {
+        board.is_in_check(board.current_turn)
+    } else {
+        let mut all = true;
+        for r in replies {
+            board.make_move(r);
+            let f = forces_mate(board, moves);
+            board.unmake_move();
+            if !f {
+                all = false;
+                break;
+            }
+        }
+        all
+    };
+    board.unmake_move();
+    res
+}
+
 pub fn cmd_mate_facts(args: &Args) {
     // cases: {"id", "fen", "pre": [depths searched before, cache kept], "depth": d}
     let cases = read_cases(&args.str("cases", "work/search/cases.ndjson"));
@@ -453,9 +508,17 @@ pub fn cmd_mate_facts(args: &Args) {
         let o = run_search(&board, depth, None, None, None, "keep", false);
         panicked |= o.panicked;
         let pre_s: Vec<String> = pre.iter().map(|d| d.to_string()).collect();
+        // does the chosen move keep a forced mate of at most three moves (exhaustive 5-ply analysis after it)?
+        // only needed when a forced mate exists and the chosen move is not itself a mate in <= 2: computed lazily
+        let best_name = o.best.map(|p| p.to_notation()).unwrap_or_default();
+        let strict_ok = last_facts.contains(&format!("{{\"mv\":\"{best_name}\",\"mates\":true"));
+        let keeps3 = !best_name.is_empty() && !strict_ok && {
+            let mut b2 = Board::from_fen(fen);
+            keeps_forced_mate(&mut b2, &best_name, 2)
+        };
         writeln!(
             w,
-            "{{\"ev\":\"mate\",\"id\":{id},\"fen\":\"{fen}\",\"chars\":{},\"depth\":{depth},\"pre\":[{}],\"best\":{},\"score\":{},\"panicked\":{panicked},\"facts\":{}}}",
+            "{{\"ev\":\"mate\",\"id\":{id},\"fen\":\"{fen}\",\"chars\":{},\"depth\":{depth},\"pre\":[{}],\"best\":{},\"score\":{},\"panicked\":{panicked},\"keeps3\":{keeps3},\"facts\":{}}}",
             chars_json(fen),
             pre_s.join(","),
             o.best.map_or("\"none\"".to_string(), |p| format!("\"{}\"", p.to_notation())),
